@@ -71,7 +71,9 @@ def run(tier, seed, workers=None):
         PROP, specs(tier), seed, workers=workers, fingerprint=fingerprint,
         required_statuses=['ResetComplete', 'LossyResetWarning'],
         nontrivial_stat='c15_commands',
-        rule='after integration branches exist for two pull requests: every '
+        rule='after integration branches exist for two pull requests (also '
+             'with pull request ids 1 / 10-12, and on a layout whose last '
+             'integration branch is a fast-forward of the previous one): every '
              'sequence (<=3) over {push, amend, rebase, '
              'rewind the source, evaluate, merge the other pull request '
              '(destination moves), manual commit on each integration branch, '
